@@ -644,32 +644,42 @@ def c17m(ctx):
         fn = ctx.fn('mapproxy/util/coverage.py:' + nm)
         defs = Defs(fn.node)
 
-        def transformed(e, depth=4):
+        def transformed(e, depth=5):
             if depth <= 0:
                 return False
             if isinstance(e, ast.Call) and isinstance(e.func, ast.Attribute) and e.func.attr == 'transform_to':
                 return True
             if isinstance(e, ast.Name):
-                ds = defs.of(e.id)
-                # a comprehension variable is not in Defs: look for the comprehension that binds it
+                # the variable of a comprehension / of a for loop around the use: an element of what is iterated over
                 comp = [g_ for x in fn.walk() if isinstance(x, (ast.ListComp, ast.GeneratorExp)) for g_ in x.generators
                         if isinstance(g_.target, ast.Name) and g_.target.id == e.id and inside(e, x)]
                 if comp:
                     return all(container(g_.iter, depth - 1) for g_ in comp)
-                if not ds:
+                loop = enclosing(e, ast.For)
+                while loop is not None and not (isinstance(loop.target, ast.Name) and loop.target.id == e.id):
+                    loop = enclosing(loop, ast.For)
+                if loop is not None:
+                    return container(loop.iter, depth - 1)
+                try:
+                    c = fn.canon.expr(e)            # the definition that reaches this use
+                except Exception:       # noqa
                     return False
-                return all(container(v, depth - 1) if sel == 'elem' else (sel is None and transformed(v, depth - 1)) for v, sel in ds)
+                return not isinstance(c, ast.Name) and transformed(c, depth - 1)
             return False
 
         def container(e, depth):
             if depth <= 0:
                 return False
-            if isinstance(e, (ast.ListComp, ast.GeneratorExp)):
-                return transformed(e.elt, depth - 1) if not isinstance(e.elt, ast.Name) else \
-                    all(container(g_.iter, depth - 1) for g_ in e.generators if isinstance(g_.target, ast.Name) and g_.target.id == e.elt.id)
             if isinstance(e, ast.Name):
-                ds = [(v, sel) for v, sel in defs.of(e.id)]
-                return bool(ds) and all(sel is None and container(v, depth - 1) for v, sel in ds)
+                try:
+                    e = fn.canon.expr(e)            # (flow sensitive: a list that is re-bound to its transformed self)
+                except Exception:       # noqa
+                    return False
+            if isinstance(e, (ast.ListComp, ast.GeneratorExp)):
+                if isinstance(e.elt, ast.Name):
+                    gs = [g_ for g_ in e.generators if isinstance(g_.target, ast.Name) and g_.target.id == e.elt.id]
+                    return bool(gs) and all(container(g_.iter, depth - 1) for g_ in gs)
+                return isinstance(e.elt, ast.Call) and isinstance(e.elt.func, ast.Attribute) and e.elt.func.attr == 'transform_to'
             if isinstance(e, ast.Subscript) and isinstance(e.slice, ast.Slice):
                 return container(e.value, depth - 1)
             return False
